@@ -116,7 +116,12 @@ def generate(rng, tier):
                         prec=want_prec, labtype=rng.choice(['int', 'str']),
                         # data in tiny physical units (Tesla, Volt): every estimator is exactly scale-equivariant, the estimate of the
                         # scaled data is scaled back and must equal the estimate of the unscaled data
-                        scale_pow=rng.choice([0, 0, 0, -30])))
+                        scale_pow=rng.choice([0, 0, 0, -30]),
+                        # channels recorded in very different units (factors 2^-13 ... 2^13 between channels): the full, diagonal and
+                        # diagonal-shrinkage estimates are equivariant channel by channel, the precision stays the exact inverse
+                        # (seeded change C14-m10: a pseudo-inverse that drops small eigenvalues)
+                        chan_pow=([rng.choice([-13, 0, 13]) for _ in range(blocks[0]['p'])]
+                                  if method in ('full', 'diag', 'shrinkage_diag') and rng.random() < 0.35 else None)))
     return out
 
 
@@ -132,6 +137,8 @@ def lab_value(c, l):
 def make_input(c, b):
     import rsatoolbox
     X = np.array(b['rows8'], dtype=float) / 8 * 2.0 ** c.get('scale_pow', 0)
+    if c.get('chan_pow'):
+        X = X * (2.0 ** np.array(c['chan_pow'], float))[None, :X.shape[1]]
     if c['call'] == 'residuals':
         return X
     return rsatoolbox.data.Dataset(X.copy(), obs_descriptors={'cond': [lab_value(c, l) for l in b['labs']]})
@@ -162,6 +169,15 @@ def run(c):
     if len(cov) != len(c['blocks']):
         return {'error': 'WRONG_NUMBER_OF_ESTIMATES', 'msg': f'{len(cov)} for {len(c["blocks"])} inputs'}
     s2 = 2.0 ** (2 * c.get('scale_pow', 0))
+    if c.get('chan_pow'):
+        d = 2.0 ** np.array(c['chan_pow'], float)
+
+        def unscale(m, inverse):
+            m = np.asarray(m, float)
+            dd = d[:m.shape[0]]
+            return m * np.outer(dd, dd) if inverse else m / np.outer(dd, dd)
+        cov = [unscale(m, False) for m in cov]
+        prec = None if prec is None else [unscale(m, True) for m in prec]
     return dict(cov=[(np.asarray(m, float) / s2).tolist() for m in cov],
                 prec=None if prec is None else [(np.asarray(m, float) * s2).tolist() for m in prec],
                 shapes=[list(np.shape(m)) for m in cov])
